@@ -397,7 +397,8 @@ class RadiDict:
                 else:
                     c0 = route[i]
                     for ic, c in enumerate(idx):
-                        if c == c0:
+                        # the wildcard marker in the index is not a literal child
+                        if c == c0 and c != TOKEN:
                             kidx = ic; break  # found!
 
                 if kidx is None:  # not found
